@@ -1181,7 +1181,8 @@ pub fn judge_faulted(sc: &Scenario, run: &TreeRun, fault_free: &Outcome, seed: u
     if run.state.budget_hit {
         return Some(mk_violation(sc, "no-progress", "the build ends within 4 x (fault-free call count) + 64 intercepted calls", json!({"trace_tail": tail}), seed));
     }
-    let only_short = sc.rules.iter().all(|s| s.action == "limit" || s.action == "shortby");
+    // a reported size that lies is not a short read: Err is acceptable there, Ok implies equal
+    let only_short = sc.rules.iter().all(|s| (s.action == "limit" || s.action == "shortby") && s.call != "fstat");
     let must_equal = only_short && sc.nonutf8.is_none();
     match &run.outcome {
         Outcome::Built { .. } => {
@@ -1247,7 +1248,13 @@ pub fn faults_for_event(trace: &[Event], i: usize) -> Vec<Vec<RuleSpec>> {
                 });
             }
         }
-        Call::Fstat => v.push(vec![RuleSpec::errno("fstat", t, nth, "EIO", "fstat-fail")]),
+        Call::Fstat => {
+            v.push(vec![RuleSpec::errno("fstat", t, nth, "EIO", "fstat-fail")]);
+            // the size a file reports is a hint (procfs, pipes, a file that grows while it is read)
+            for n in [0usize, 1, 7, 1 << 20] {
+                v.push(vec![RuleSpec::limit("fstat", t, nth, n, "size-lie")]);
+            }
+        }
         Call::Lseek => v.push(vec![RuleSpec::errno("lseek", t, nth, "ESPIPE", "lseek-fail")]),
         Call::Close => v.push(vec![RuleSpec::errno("close", t, nth, "EIO", "close-fail")]),
         _ => {}
